@@ -45,6 +45,8 @@ func NewJSONP(ctx *types.HttpContext) Jsonp {
 
 func (j *jsonp) Construct(ctx *types.HttpContext) {
 	j.Polling.Construct(ctx)
+	// a script response cannot carry the binary payload format
+	j.SetSupportsBinary(false)
 
 	j.head = "___eio[" + rNumber.ReplaceAllString(ctx.Query().Peek("j"), "") + "]("
 	j.foot = ");"
